@@ -309,6 +309,7 @@ void tplan_common(int tier, int global)
   tplan.process_name = (int)sim_plan(3) != 0;
   sim_set_clock_jumps((int)sim_plan(2));
   tplan.many_names = sim_plan(4) == 0;
+  tplan.extra_save = sim_plan(5) == 0 ? 1 + (int)sim_plan(2) : 0;
   for (int t = 0; t < tplan.nthreads; t++) {
     tplan.named[t] = 1;
     unsigned b = sim_plan(10);
@@ -506,9 +507,9 @@ int stuck(int deadlock, char *cls, size_t n)
 
 void tdescribe(char *buf, size_t n)
 {
-  int k = snprintf(buf, n, "{\"api\": \"%s\", \"chunk\": %u, \"threads\": %d, \"process_name\": %d, \"thread0_records\": %d, \"one_after_another\": %d, \"names_from_pool_of_200\": %d, \"events_per_thread\": [",
+  int k = snprintf(buf, n, "{\"api\": \"%s\", \"chunk\": %u, \"threads\": %d, \"process_name\": %d, \"thread0_records\": %d, \"one_after_another\": %d, \"names_from_pool_of_200\": %d, \"extra_saves\": %d, \"events_per_thread\": [",
                    tplan.global_api ? "free functions (global recorder)" : "private TraceRecorder", tplan.chunk, tplan.nthreads, tplan.process_name,
-                   tplan.t0_records, tplan.sequential, tplan.many_names);
+                   tplan.t0_records, tplan.sequential, tplan.many_names, tplan.extra_save);
   for (int t = 0; t < tplan.nthreads; t++)
     k += snprintf(buf + k, n - k, "%s\"%d bulk + %d scripted\"", t ? "," : "", tplan.bulk[t], tplan.nops[t]);
   snprintf(buf + k, n - k, "]}");
@@ -522,12 +523,13 @@ SimRegistrar tgreg(&tgscen);
 // ---------------------------------------------------------------- images
 C20IPlan iplans[3];
 int nimages;
+int images_sequential;
 char ipaths[3][280];
 C20IPlan iplan;  // the image being checked
 bool written;
 const char *no_faults[] = {nullptr};
-enum { PI_SINGLE_ROW = 0, PI_SINGLE_COL, PI_NONSQUARE, PI_WIDE, PI_CONCURRENT };
-const char *iprobe_names[] = {"single_row", "single_column", "non_square", "width_above_4000", "images_written_concurrently", nullptr};
+enum { PI_SINGLE_ROW = 0, PI_SINGLE_COL, PI_NONSQUARE, PI_WIDE, PI_CONCURRENT, PI_SEQUENTIAL };
+const char *iprobe_names[] = {"single_row", "single_column", "non_square", "width_above_4000", "images_written_concurrently", "images_written_one_after_another", nullptr};
 const char *fmtname[] = {"PPM", "PGM", "PFM<float>", "PFM<vec3f>", "PFM<vec3fa>", "PFM<vec4f>"};
 
 void ireset()
@@ -557,8 +559,9 @@ void iplan_fn(int tier)
       iplan.format = common;
     iplans[i] = iplan;
   }
+  images_sequential = nimages > 1 && sim_plan(3) == 0;
   if (nimages > 1)
-    sim_probe(PI_CONCURRENT);
+    sim_probe(images_sequential ? PI_SEQUENTIAL : PI_CONCURRENT);
 }
 void one_image_plan(int tier, bool small)
 {
@@ -662,7 +665,7 @@ void idescribe(char *buf, size_t n)
   for (int i = 0; i < nimages; i++)
     k += snprintf(buf + k, n - k, "%s{\"format\": \"%s\", \"width\": %d, \"height\": %d, \"pattern_seed\": %d}", i ? "," : "", fmtname[iplans[i].format],
                   iplans[i].w, iplans[i].h, iplans[i].seed);
-  snprintf(buf + k, n - k, "], \"written_concurrently\": %d}", nimages > 1);
+  snprintf(buf + k, n - k, "], \"written_concurrently\": %d, \"written_one_after_another\": %d}", nimages > 1 && !images_sequential, images_sequential);
 }
 const SimScenario iscen = {"c20img", "C20", LANE_DEBUG, ireset, iplan_fn, c20img_run, icheck, stuck, idescribe, no_faults, iprobe_names, 1, 0};
 SimRegistrar ireg(&iscen);
@@ -694,6 +697,7 @@ void c20t_saved()
 }
 const C20IPlan *c20i_plan() { return &iplans[0]; }
 int c20i_count() { return nimages; }
+int c20i_one_after_another() { return images_sequential; }
 const C20IPlan *c20i_plan_n(int i) { return &iplans[i]; }
 const char *c20_path_n(int i) { return ipaths[i]; }
 void c20i_written()
